@@ -28,6 +28,8 @@ def run(ctx):
     c29.grammar_cells(ctx, dump, "x86_64", "C04.R2", narrow_arith=False)
     ctx.rule("C04.R5", "shift by cl: the count register is loaded immediately before the shift instruction that reads it implicitly", floor=20)
     c07.implicit_operand_windows(ctx, dump, "x86_64", "C04.R5")
+    from .c05 import phi_lowering
+    phi_lowering(ctx, "C04.R6")
     # ---- R3 ----
     de = ctx.fn(P, "PeepHoleStream.do_emit")
     site = P + ":PeepHoleStream.do_emit"
